@@ -31,7 +31,7 @@ def build(desc, s):
             td["argmaps"] = {"path": "conf/shared-argmaps"}   # one argmap directory for all targets
         if desc["cmdsrc"] == "custompath":
             td["commands"] = {"path": "tools/%s-cmds" % t}
-        elif desc["cmdsrc"] == "defpath":
+        elif desc["cmdsrc"] in ("defpath", "defmissing"):
             td["commands"] = {"definitions": {c: {"path": "ext/%s/%s-impl.sh" % (t, c)} for c in cmds}}
         elif desc["cmdsrc"] == "defempty":
             td["commands"] = {"definitions": {c: {} for c in cmds}}
@@ -46,6 +46,11 @@ def build(desc, s):
         for c in cmds:
             if desc["cmdsrc"] == "custompath":
                 p = r.command_file(t, c, "x", cmd_dir="tools/%s-cmds" % t)
+            elif desc["cmdsrc"] == "defmissing":
+                # the configured definition path does not exist (renamed away); a same-stem file in the
+                # default directory must not be taken instead
+                r.command_file(t, c, "x")
+                continue
             elif desc["cmdsrc"] == "defpath":
                 p = r.command_file(t, c, "x", cmd_dir="ext/%s" % t, name="%s-impl.sh" % c)
                 # a decoy with the right stem in the default directory must NOT be chosen
@@ -128,6 +133,14 @@ def task(desc):
         res = r.mr(*args, env=r.trace_env())
         viol = []
         doc = res.json()
+        if desc["cmdsrc"] == "defmissing":
+            started = [rec["argv"][0] for rec in r.traces()]
+            if started:
+                viol.append(("wrong-executable", "the configured definition paths do not exist, yet %s was started" % [os.path.relpath(x, r.dir) for x in started]))
+            # (how the run reports a definition whose file is missing is not C11's subject)
+            return {"evaluations": 1, "nontrivial": 1,
+                    "violations": [{"sig": sig, "detail": d, "rank": len(json.dumps(desc)), "case": {"c11": desc}} for sig, d in viol],
+                    "sample": {"args": args, "expected_argv": {}}}
         if res.code != 0 or doc is None:
             viol.append(("run-failed", "exit %s: %s" % (res.code, res.err[:300])))
         traces = r.traces()
@@ -208,6 +221,12 @@ def scenarios(tier):
             files = [{"base": "args", "m1": "args", "m2": None}, {"base": "args", "m1": "nocmd", "m2": "args"}]
             out.append({"targets": 2, "commands": ["build", "test"], "files": files, "argmaps_opt": ["m1", "m2"], "no_base": False,
                         "args": None, "argdir": argdir, "cmdsrc": cmdsrc, "vocab": plain, "foreign": True})
+    # (2f) a definition path that does not exist while a same-stem file sits in the default directory
+    for n in (1, 2):
+        for cmds in (["build"], ["build", "test"]):
+            files = [{"base": "args", "m1": None, "m2": None}] * n
+            out.append({"targets": n, "commands": cmds, "files": files, "argmaps_opt": None, "no_base": False,
+                        "args": None, "argdir": "default", "cmdsrc": "defmissing", "vocab": plain})
     # (2e) the surroundings of a run: an earlier failed / successful run's records on disk, a checkpoint with
     # every target changed since, a listener attached
     for ctx in (["prior-failed"], ["prior-ok"], ["checkpoint"], ["listener"], ["prior-failed", "checkpoint", "listener"]):
